@@ -1,4 +1,5 @@
 import Bmc.Lemmas.AcceptInv
+import Bmc.Lemmas.TamperedAuthCode
 /-! # C04 — only authentic packets addressed to this session are accepted as responses (property theorems only)
 
 No cryptographic claim is made: "a forger cannot produce a MAC" is the integrity algorithm's job. What is proved is
@@ -82,5 +83,21 @@ theorem accepted_satisfies_mac (C : Ops) (k : Keys) (hk : k.integ ≠ 0) (c : Cm
     | ok v => rw [hd] at this; simp at this; rw [this]
   obtain ⟨off, _, _, hmac⟩ := Bmc.Proto.V2Session.decode_sig _ _ _ hdec ha
   exact ⟨r, p, v2, off, hr, hv2, ha, hmac⟩
+
+/-- TAMPERED AUTHCODE: take the response a conforming BMC sends (any command, completion code, body, sequence number, IV)
+    and put ANY OTHER bytes where its AuthCode was — one bit flipped, some bytes cut off or added, the code of another
+    key, nothing at all: the datagram no longer decodes, the library treats it as if no valid response had arrived
+    (retry), and what it carried never reaches the caller. With the genuine code it is the command's final response. No
+    assumption on the hash: this is about WHERE the code is looked for and WHAT it is compared with. -/
+theorem tampered_authcode_is_retry (C : Ops) (hC : C.Lawful) (k : Keys) (c : Cmd) (cc : UInt8) (data : Bytes) (seq : Nat) (iv : Bytes)
+    (hiv : iv.length = 16) (hm : (responseMsg c cc).WF) (hid : k.localID < 4294967296) (hseq : seq < 4294967296)
+    (hlen : (responseAes C k c cc data iv).length < 65536) (code : Bytes) :
+    classify C k c (responseWithCode C k c cc data seq iv code) =
+      if code = responseCode C k c cc data seq iv then (if isTemp cc then .retry else .final cc data) else .retry := by
+  by_cases h : code = responseCode C k c cc data seq iv
+  · rw [if_pos h, h, ← responseDatagram_eq C k c cc data seq iv hlen]
+    exact classify_response C hC k c cc data seq iv hiv hm hid hseq hlen
+  · rw [if_neg h]
+    exact classify_tampered_code C k c cc data seq iv code hid hseq hlen h
 
 end Bmc.Proofs.C04
